@@ -189,6 +189,7 @@ fn gen(r: &mut Rng, tier: &Tier, out: &mut Vec<String>) {
             let v6 = r.chance(1, 5);
             let mut sp = ConnSpec::new(ck, v6, (case as u64 * 13 + j as u64 * 101) % 5000 + j as u64 * 6000);
             sp.same_host = r.chance(1, 4);
+            if case % 6 == 5 && j == 0 { sp.v6 = true; sp.same_host = true; }
             conns.push(connection(r, &sp, 1_000_000));
         }
         let tr = interleave(r, &conns, case % 4 == 0);
